@@ -60,7 +60,7 @@ BOUNDS = {
              "expression}, x 9 coefficient magnitude classes x 2 shapes in strings",
     "thorough": "all names; 6000 generated expressions (1-5 factors); 2000 compound pairs (<= 1 square root, |exponent| <= 3); every ordered pair of table symbols sharing a dimension "
                 "(~1100, with SI prefixes on prefixable ones); all rows (ground); define_unit over 5 definition shapes x 7 registry unit systems x 2 forms; "
-                "HISTORY: all names x 3 editing calls, every 4th chunk of the expressions and every 5th chunk of the pairs; ARGUMENT FORM: 160 unit "
+                "HISTORY: all names x 3 editing calls, every 4th chunk of the expressions and every 8th chunk of the pairs; ARGUMENT FORM: 96 unit "
                 "expressions x 7 entry points x symbolic coefficient, x 4 non-string forms, x 9 coefficient classes",
 }
 OUTSIDE = ("unit strings that unyt rejects (acceptance of documented names is C14); offset units in conversions and compounds (C03/C08); "
@@ -638,7 +638,7 @@ def symbolic_coefficients(ctx, reg):
     import sympy
     import z3
     from sympy.core.sympify import converter
-    from symx.core import SymReal, model_value
+    from symx.core import SymReal
     one = ctx.mods["unyt"].dimensions.dimensionless
 
     def conv(a):
@@ -847,7 +847,7 @@ def cases(tier, mods):
     for k in range(0, len(names), CHUNK_EDITED):
         for op in EDIT_OPS:
             out.append(make_names_edited_case(op, k // CHUNK_EDITED, names[k:k + CHUNK_EDITED]))
-    step_e, step_p = (3, 4) if tier == "quick" else (4, 5)
+    step_e, step_p = (3, 4) if tier == "quick" else (4, 8)
     for j, k in enumerate(range(0, len(trees), per_e * step_e)):
         out.append(make_expr_edited_case(EDIT_OPS[j % len(EDIT_OPS)], k // per_e, trees[k:k + per_e]))
     for j, k in enumerate(range(0, len(pairs), per_p * step_p)):
@@ -855,9 +855,9 @@ def cases(tier, mods):
     for j, k in enumerate(range(0, len(ap), 3 * step_p)):
         out.append(make_to_edited_case(EDIT_OPS[(j + 1) % len(EDIT_OPS)], "atomic", k // 3, ap[k:k + 2]))
     # argument-form axis: the unit handed over as a quantity with symbolic coefficient / as bytes, Unit, sympy expression
-    n_form = 6 if tier == "quick" else 40
+    n_form = 6 if tier == "quick" else 24
     fp = pairs[1::max(1, len(pairs) // (2 * n_form))][:2 * n_form] + ap[2::max(1, len(ap) // (2 * n_form))][:2 * n_form]
-    for e, entry in enumerate(FORM_ENTRIES):
+    for entry in FORM_ENTRIES:
         for k in range(0, len(fp), 2):
             out.append(make_form_case(entry, k // 2, fp[k:k + 2]))
     return out
